@@ -226,10 +226,19 @@ fn foreign_events(sc: &str, bytes: &[u8], out: &mut Vec<Value>) {
         }
         let again = write_with(&reread).unwrap_or_default();
         let lw2 = lexed_words(&again).unwrap_or_default();
+        // ... and through a raw copy (foreign entries may carry no Unix mode, other host systems, odd attributes)
+        let mut raw = ZipWriter::new(Cursor::new(Vec::new()));
+        for i in 0..ar.len() {
+            let f = ar.by_index_raw(i).unwrap();
+            raw.raw_copy_file(f).unwrap();
+        }
+        let rawb = raw.finish().map(|c| c.into_inner()).unwrap_or_default();
+        let lw3 = lexed_words(&rawb).unwrap_or_default();
         for i in 0..lw.len() {
             let w2 = lw2.get(i).cloned().unwrap_or((99999, 99999, 99999, 99999));
+            let w3 = lw3.get(i).cloned().unwrap_or((99999, 99999, 99999, 99999));
             evs.push(json!({"ev": "TRewrite", "sc": sc, "cd": lw[i].0, "ct": lw[i].1, "cd2": w2.0, "ct2": w2.1, "ld2": w2.2, "lt2": w2.3,
-                            "cd3": lw[i].0, "ct3": lw[i].1, "ld3": w2.2, "lt3": w2.3}));
+                            "cd3": w3.0, "ct3": w3.1, "ld3": w3.2, "lt3": w3.3}));
         }
         evs
     }));
